@@ -163,7 +163,14 @@ def run(rep, tier, seed, model_ok=True, effort=1):
         is_ver = isinstance(v, sv.Version)
         rep.case(s)
         rep.count("class=" + ("pep440" if is_ver else "legacy"))
-        key_items.append("(%s,%s,%s)" % (cs(s), pkey(v._key), cs(str(v))))
+        try:
+            key_items.append("(%s,%s,%s)" % (cs(s), pkey(v._key), cs(str(v))))
+        except Exception as ex:
+            # the sort key is not of the documented shape (e.g. an epoch that is not a number): comparisons with other versions break
+            rep.violation("the sort key of a parsed version is malformed (%s: %s)" % (type(ex).__name__, ex), input=dict(s=s, key=repr(v._key)), **{"class": "compare-raises"})
+            strs.remove(s)
+            objs.pop(s, None)
+            continue
         meta.append(s)
         if pk is not None:
             try:
